@@ -61,7 +61,10 @@ def showClause (c : Clause) : String :=
 /-- the clause term a compiled clause must denote (spec side): head and the goals of one disjunct -/
 def handler : Handler := fun _ impl =>
   match impl.splitOn " ;;; " with
-  | [ann, _] =>
+  | [ann, compiled] =>
+    if compiled.startsWith "panic" || compiled.startsWith "goerr" then
+      (impl, "FAIL the compiler did not return a clause or an ISO error: " ++ compiled)
+    else
     match Term.ofWire ann with
     | none => ("BAD-ANN", "-")
     | some t =>
